@@ -1,4 +1,8 @@
-"""C09 — light hardware output equals the priority stack's colour (specs/LightStack)."""
+"""C09 — light hardware output equals the priority stack's colour (specs/LightStack).
+
+Schedules: `tlc -simulate` of LightStackGen (kind of step drawn before its arguments: commands land inside running fades, several
+fade-outs of different keys in flight at once, removed keys set again), hand-written ones, and the family overlapping_removals().
+Design checks: LightStack (MC.cfg) and LightStackMC (behaviours starting from populated stacks: every overlap of fade-outs)."""
 import random
 
 from lib import tlc, harness
@@ -14,6 +18,8 @@ _H = {}
 
 
 def cfg_text(quick):
+    # the two monitors that cost a Range() evaluation per state / a test per transition are checked over this (large) graph in
+    # the thorough tier only; the quick tier checks them over LightStackMC (overlap_cfg_text) and on every recorded trace
     return """SPECIFICATION Spec
 CONSTANTS
   Keys = {1, 2}
@@ -25,12 +31,38 @@ CONSTANTS
 INVARIANT RangeSane
 INVARIANT TopWins
 INVARIANT EmptyIsOff
+INVARIANT FadeOutGone
+INVARIANT OneEntryPerKey
 PROPERTY RemoveRestores
+%sCHECK_DEADLOCK FALSE
+""" % ((4, 4, '') if quick else (5, 5, 'INVARIANT EndedFadeOutTransparent\nPROPERTY ReAddTakesEffect\n'))
+
+
+def overlap_cfg_text(quick):
+    """LightStackMC: behaviours start from stacks holding two or three keys; calls are removals, colour commands for keys that
+    are fading out or gone, and time - every overlap of two or three fade-outs and every re-use of a removed key in the bounds."""
+    return """SPECIFICATION MCSpec
+CONSTANTS
+  Keys = {1, 2, 3}
+  Prios = {0, 1}
+  Cols = %s
+  Fades = {0, 1, 2}
+  MaxTime = %d
+  MaxOps = %d
+  InitStacks <- MCInitStacks
+INVARIANT RangeSane
+INVARIANT TopWins
+INVARIANT EmptyIsOff
+INVARIANT FadeOutGone
+INVARIANT OneEntryPerKey
+INVARIANT EndedFadeOutTransparent
+PROPERTY RemoveRestores
+PROPERTY ReAddTakesEffect
 CHECK_DEADLOCK FALSE
-""" % ((4, 4) if quick else (5, 5))
+""" % (('{0, 255}', 3, 3) if quick else ('{0, 100, 255}', 4, 4))
 
 
-GEN_CFG = """SPECIFICATION Spec
+GEN_CFG = """SPECIFICATION GSpec
 CONSTANTS
   Keys = {1, 2, 3}
   Prios = {0, 1, 2}
@@ -176,6 +208,12 @@ def _exec(sched, lname, kind, unit):
     for _ in range(3):
         h.advance_time_and_run(0)
 
+    # A batched platform transmits at most once per update period (1/update_hz = 10 ms here).  Two fade-outs which end at the
+    # same model instant but began in different steps end a fraction of a microsecond apart; the correction for the second one
+    # is then transmitted one period after the first.  The hardware of a batched platform is therefore looked at 1.5 update
+    # periods after the end of the step's fades (every step lasts that much longer; fades still end inside their step).
+    settle = 0.015 if kind == 'batch' else 0.0
+
     def corrected():
         from mpf.core.rgb_color import RGBColor
         lg = light.get_color()
@@ -237,8 +275,9 @@ def _exec(sched, lname, kind, unit):
                 light.clear_stack()
                 lines.append({'op': op, 'lg': logical()})
             elif op == 'adv':
-                h.advance_time_and_run(unit * (1 + EPS) / 1000.0)
-                lines.append({'op': op, 'lg': logical(), 'hw': [int(round(d.last * 255)) for d in doubles], 'exp': corrected()})
+                h.advance_time_and_run(unit * (1 + EPS) / 1000.0 + settle)
+                lines.append({'op': op, 'lg': logical(), 'hw': [int(round(d.last * 255)) for d in doubles], 'exp': corrected(),
+                              'ks': sorted({int(e.key[1:]) for e in light.stack})})
             if op != 'adv':
                 for _ in range(2):
                     h.advance_time_and_run(0)
@@ -284,21 +323,114 @@ def handmade():
     ]
 
 
+def overlapping_removals():
+    """Hand-written family: faded removals of two DIFFERENT keys of one light in flight at once.
+
+    Three entries k1 < k2 < k3 (priorities 1, 3, 5); key a is removed with fade fa and, gap units later (its fade-out still
+    running), key b with fade fb - a above or below b, b's fade-out ending before / with / after a's - then
+      (a) a removed key is set again with a lower / the same / a higher priority than it had, during the fade-outs or
+          after they have ended (and is then left as the only thing above the lowest entry, so that it is what shows),
+      (b) the entry beneath the removed top is itself fading and arrives inside the (longer) fade-out window.
+    """
+    Cl = lambda c, f, p, k: {'op': 'color', 'c': c, 'f': f, 'p': p, 'k': k}
+    Rm = lambda k, f: {'op': 'remove', 'k': k, 'f': f}
+    A = {'op': 'adv'}
+    prio = {1: 1, 2: 3, 3: 5}
+    col = {1: 2, 2: 3, 3: 1}
+    base = [Cl(col[k], 0, prio[k], k) for k in (1, 2, 3)] + [A]
+    timings = [(3, 1, 1), (3, 1, 2), (2, 1, 3), (2, 0, 2), (4, 2, 3), (3, 0, 1), (1, 0, 3)]
+    out = []
+    for a, b in ((3, 2), (2, 3), (3, 1), (1, 3), (2, 1), (1, 2)):
+        third = 6 - a - b
+        for fa, gap, fb in timings:
+            two = base + [Rm(a, fa)] + [A] * gap + [Rm(b, fb)]
+            rest = max(fa - gap, fb)                # units until both fade-outs have ended
+            out.append(two + [A] * (rest + 2) + [Rm(third, 0), A, A])
+            for dp in (-1, 0, 1):
+                for who in (a, b):
+                    again = Cl(4, 0, prio[who] + dp, who)
+                    # after both fade-outs have ended / while the later one is still running
+                    out.append(two + [A] * (rest + 1) + [again, A, Rm(third, 2 if third > 1 else 0), A, A, A, Rm(who, 0), A])
+                    if rest > 1:
+                        out.append(two + [A] * (rest - 1) + [again, A, A, Rm(third, 0), A, Cl(5, 1, prio[who] - 1, who), A, A])
+    # (b) the entry beneath the removed one is fading and arrives inside the longer fade-out
+    for top, mid, low in ((3, 2, 1), (3, 1, 2), (2, 1, 3)):
+        for f_mid, wait, fa, gap, fb in ((2, 1, 4, 1, 1), (2, 1, 3, 0, 3), (3, 1, 4, 1, 2), (2, 0, 4, 1, 4), (3, 2, 3, 1, 1)):
+            # `low` here is merely the other key that is faded out meanwhile (beneath or above the fading entry)
+            out.append([Cl(col[low], 0, prio[low], low), Cl(col[top], 0, prio[top], top), A, Cl(col[mid], f_mid, prio[mid], mid)]
+                       + [A] * wait + [Rm(top, fa)] + [A] * gap + [Rm(low, fb)] + [A] * (max(fa, fb) + 3)
+                       + [Rm(mid, 0), A, A])
+    return out
+
+
+def gen_schedule(b):
+    """The calls of one simulated behaviour of LightStackGen: the `act` of every state reached by a Do step."""
+    return [s['act'] for prev, s in zip(b, b[1:]) if prev['pick'] != 0 and s['pick'] == 0]
+
+
+def _stale_keys(ev, n):
+    """(for the wording of a report only) keys listed in line n although, by the log, their removal had completed."""
+    t, due, prio = 0, {}, {}
+    for e in ev[:n]:
+        k = e.get('k')
+        if e['op'] == 'adv':
+            t += 1
+            for x in [x for x in due if due[x] <= t]:
+                prio.pop(x, None)
+        elif e['op'] == 'clear':
+            due, prio = {x['k']: t for x in ev[:n] if 'k' in x}, {}
+        elif e['op'] == 'color' and e['p'] >= prio.get(k, e['p']):       # (a lower priority than the key has is ignored)
+            due.pop(k, None)
+            prio[k] = e['p']
+        elif e['op'] == 'remove' and k in prio:
+            due[k] = t if k in due or not e['f'] else t + e['f']
+            if due[k] <= t:
+                prio.pop(k)
+    if 0 < n <= len(ev) and 'ks' in ev[n - 1]:
+        return [k for k in ev[n - 1]['ks'] if k in due and due[k] <= t]
+    return []
+
+
 def run(ctx):
+    from concurrent.futures import ThreadPoolExecutor
     wd = tlc.prepare(ctx.scratch, 'LightStack', 'lightstack')
     with open(wd + '/MC.cfg', 'w') as f:
         f.write(cfg_text(ctx.quick))
-    r = tlc.expect_ok(tlc.check(wd, 'LightStack', 'MC.cfg', timeout=1500), 'LightStack design check')
-    ctx.add_tlc('LightStackMC', r, {'Keys': 2, 'Prios': 2, 'Cols': 3, 'Fades': '{0,2}', 'MaxOps': 4 if ctx.quick else 5})
-    ctx.coverage['monitors'] += ['RangeSane', 'TopWins', 'EmptyIsOff', 'RemoveRestores', 'ObsLogical', 'ObsHw(at rest)']
+    with open(wd + '/MCOverlap.cfg', 'w') as f:
+        f.write(overlap_cfg_text(ctx.quick))
     with open(wd + '/Gen.cfg', 'w') as f:
         f.write(GEN_CFG)
-    behs, _ = tlc.simulate(wd, 'LightStack', 'Gen.cfg', num=320 if ctx.quick else 5000, depth=26 if ctx.quick else 36, seed=ctx.seed)
+    with ThreadPoolExecutor(3) as ex:       # three independent TLC processes
+        f_mc = ex.submit(tlc.check, wd, 'LightStack', 'MC.cfg', workers=14, timeout=1500)
+        f_ov = ex.submit(tlc.check, wd, 'LightStackMC', 'MCOverlap.cfg', workers=2 if ctx.quick else 8, timeout=1500)
+        # LightStackGen draws the kind of each step before its arguments (see the module): commands land inside running
+        # fades and fade-outs, several fade-outs are in flight at once, removed keys are used again
+        f_sim = ex.submit(tlc.simulate, wd, 'LightStackGen', 'Gen.cfg', num=300 if ctx.quick else 5000,
+                          depth=53 if ctx.quick else 73, seed=ctx.seed)
+        r = tlc.expect_ok(f_mc.result(), 'LightStack design check')
+        r2 = tlc.expect_ok(f_ov.result(), 'LightStack design check (overlapping fade-outs)')
+        behs, _ = f_sim.result()
+    ctx.add_tlc('LightStackMC', r, {'Keys': 2, 'Prios': 2, 'Cols': 3, 'Fades': '{0,2}', 'MaxOps': 4 if ctx.quick else 5})
+    ctx.add_tlc('LightStackMCOverlap', r2, {'Keys': 3, 'Prios': 2, 'Cols': 2 if ctx.quick else 3, 'Fades': '{0,1,2}',
+                                            'MaxOps': 3 if ctx.quick else 4, 'InitStacks': 3})
+    ctx.coverage['monitors'] += ['RangeSane', 'TopWins', 'EmptyIsOff', 'RemoveRestores', 'FadeOutGone', 'OneEntryPerKey',
+                                 'ReAddTakesEffect', 'EndedFadeOutTransparent', 'ObsLogical', 'ObsHw(at rest)', 'ObsKeys']
     rnd = random.Random(ctx.seed)
-    jobs = [([s['act'] for s in b], rnd.choice(LIGHTS), rnd.choice(BACKENDS), rnd.choice(UNITS)) for b in behs]
+    jobs = [(gen_schedule(b), rnd.choice(LIGHTS), rnd.choice(BACKENDS), rnd.choice(UNITS)) for b in behs]
+    two_fo = sum(1 for b in behs if any(len([e for e in s['stack'] if e['fo']]) > 1 for s in b))
+    ctx.coverage['simulated_schedules_with_overlapping_fade_outs'] = two_fo
+    if behs and two_fo * 10 < len(behs):
+        raise tlc.TLCError('schedule generator: only %d of %d behaviours have two fade-outs in flight' % (two_fo, len(behs)))
     for s in handmade():
         jobs += [(s, lt, be, 50) for lt in ('l_w', 'l_rgb') for be in BACKENDS]
         jobs += [(s, 'l_rgbw', be, u) for be in BACKENDS[:2] for u in (50, 100, 200)]
+    fam = overlapping_removals()
+    rnd.shuffle(fam)
+    combos = [(lt, be) for lt in LIGHTS for be in BACKENDS]
+    for i, s in enumerate(fam[:40] if ctx.quick else fam):
+        for j in range(1 if ctx.quick else 3):
+            lt, be = combos[(5 * i + 7 * j) % len(combos)]
+            jobs.append((s, lt, be, UNITS[(i + j) % 2]))
     res = harness.pmap(exec_schedule, jobs, chunk=8)
     traces = [t for r in res for t in r]
     owner = [i for i, r in enumerate(res) for _ in r]
@@ -312,10 +444,15 @@ def run(ctx):
             continue
         fe = info.get('failing_event') or {}
         j = jobs[owner[i]]
-        what = 'hw-at-rest' if (fe.get('op') == 'adv' and fe.get('hw') != fe.get('exp')) else 'logical'
+        stale = _stale_keys(traces[i]['ev'], info.get('line') or 0) if fe.get('op') == 'adv' else []
+        if stale:
+            what = 'removed-key-still-in-stack'
+        else:
+            what = 'hw-at-rest' if (fe.get('op') == 'adv' and fe.get('hw') != fe.get('exp')) else 'logical'
         ctx.violation('C09:%s:%s:%s' % (j[2], what, fe.get('op', '?')),
-                      'light %s on backend %s (unit %dms, channel %s): execution not explained by LightStack spec at line %s: %s (prev %s)' % (
-                          j[1], j[2], j[3], traces[i].get('_ch'), info.get('line'), fe, info.get('prev_event')),
+                      'light %s on backend %s (unit %dms, channel %s): execution not explained by LightStack spec at line %s: %s (prev %s)%s' % (
+                          j[1], j[2], j[3], traces[i].get('_ch'), info.get('line'), fe, info.get('prev_event'),
+                          '; key(s) %s still in the stack after their removal (fade-out) had ended' % stale if stale else ''),
                       {'job': list(j), 'trace': traces[i], 'info': info})
     ctx.assumptions += ['hardware channels are recording subclasses of the real LightPlatformInterface / LightPlatformSoftwareFade / '
                         'LightPlatformDirectFade / PlatformBatchLight classes', 'mid-fade colours are only bounded by their endpoints']
